@@ -217,6 +217,7 @@ class Gen:
             if r.random() < 0.7:
                 t = r.choice(SUB_TOPICS)
                 pr = r.choice(['-', '-', 'n', 'l', 'h', 'h', 'ln']) if 'prio' in self.alpha else '-'
+                if r.random() < 0.25: pr = pr.replace('-', '') + 'x'      # the topic string stays the caller's (no M_SRC_DUP)
                 self.w('sub %s %s %s %d u%d' % (m['tok'], t, pr, 1 if r.random() < 0.15 else 0, r.randrange(1, 9)))
                 m['subs'].add(t)
             else:
@@ -289,7 +290,7 @@ class Gen:
                 n = r.choice([1, 2, 3, 0])
                 self.w(('reg_pid %s %d %s u%d' % (m['tok'], n, fl, r.randrange(1, 9))) if reg else ('dereg_pid %s %d' % (m['tok'], n)))
             elif k == 'path':
-                n = r.choice([1, 2, 3, 0])
+                n = r.choice([1, 2, 3, 4, 4, 0])      # 4: a path that cannot be watched
                 if reg and r.random() < 0.3: fl = fl.replace('-', '') + 'd'
                 self.w(('reg_path %s %d %s u%d' % (m['tok'], n, fl, r.randrange(1, 9))) if reg else ('dereg_path %s %d' % (m['tok'], n)))
             else:
@@ -406,7 +407,7 @@ def scenario(rng, kind=None):
     r = rng
     kind = kind or r.choice(['pill_batch_dereg', 'paused_flush', 'oneshot_stop', 'replace_inflight', 'stash_slices', 'tb_reconf',
                              'tick_eval', 'tb_batch', 'errno_batch', 'dup_refused', 'far_timers', 'refuse_self', 'stash_prio',
-                             'oneshot_regex', 'sub_collide', 'low_restart', 'stash_pause_stop', 'tasks'])
+                             'oneshot_regex', 'sub_collide', 'low_restart', 'stash_pause_stop', 'tasks', 'burst_order', 'resub_dup', 'tick_restart'])
     L = ['ctx_reg %d' % r.randrange(2)]
     af = lambda: r.randrange(2)
     if kind == 'pill_batch_dereg':
@@ -465,7 +466,10 @@ def scenario(rng, kind=None):
         L += ['reg h0 A - -', 'reg h1 B - -', 'start h0', 'start h1', 'sub h1 %s - 1 u1' % r.choice(PATTERNS + PATTERNS + ['ta']),
               'sub h1 tc - %d u2' % r.randrange(2)]
         L += ['pub h0 %s p%d %d' % (r.choice(['ta', 'tb', 'tc']), i + 1, af()) for i in range(r.randrange(2, 5))] + ['srclen h1']
-        L += ['dispatch'] * 5 + ['srclen h1', 'pub h0 ta p9 0', 'dispatch', 'dispatch', 'srclen h1']
+        if r.random() < 0.5:
+            # the handler of the first message subscribes again to the topic the one-shot subscription was consumed for
+            L += ['dispatch', 'dispatch', 'sub h1 %s %s %d u5' % (r.choice(['ta', 'tb', 't.']), r.choice(['-', 'x']), r.randrange(2)), 'srclen h1', 'ret 1']
+        L += ['dispatch'] * 5 + ['srclen h1', 'pub h0 ta p9 0', 'dispatch', 'dispatch', 'srclen h1', 'unsub h1 ta', 'unsub h1 t.']
     elif kind == 'sub_collide':
         # literal topics that share one home slot of the subscription table, removed and added back in several orders
         ts = COLLIDING[:]; r.shuffle(ts)
@@ -496,6 +500,23 @@ def scenario(rng, kind=None):
         if r.random() < 0.4: L += ['batch_size h0 %d' % r.randrange(2, 4)]
         L += [r.choice(['dispatch', 'pause h0', 'stop h0', 'srclen h0']), r.choice(['resume h0', 'start h0', 'dispatch']), 'ret 1',
               'dispatch', 'dispatch', 'srclen h0', 'reg_task h0 2 - u4', 'dispatch', 'dispatch', 'ret 1', 'srclen h0']
+    elif kind == 'burst_order':
+        # a mailbox filled to the brim, more sends on top (refused), then everything is read: order and loss
+        n = r.choice([8190, 8192, 8195, 8200])
+        L += ['reg h0 A - -', 'reg h1 B - -', 'start h0', 'start h1', 'burst h0 h1 p5000 %d %d' % (af(), n),
+              'tell h0 h1 p1 0', 'tell h0 h1 p2 %d' % af(), 'dispatch', 'dispatch', 'dispatch', 'tell h0 h1 p3 0', 'dispatch', 'dispatch']
+    elif kind == 'resub_dup':
+        # repeated subscriptions to one topic that differ in who owns the topic string (M_SRC_DUP or not), in both directions
+        fl = ['-', 'x']; r.shuffle(fl)
+        L += ['reg h0 A - -', 'start h0', 'sub h0 ta %s 0 u1' % fl[0], 'sub h0 ta %s %d u2' % (fl[1], r.randrange(2)),
+              'sub h0 tb %s 0 u3' % fl[1], 'sub h0 tb %s 0 u4' % fl[0], 'sub h0 t. x 0 u5', 'sub h0 t. - 0 u6', 'srclen h0',
+              'pub h0 ta p1 %d' % af(), 'dispatch', 'dispatch', r.choice(['unsub h0 ta', 'stop h0', 'dereg h0', 'srclen h0']),
+              'sub h0 ta x 0 u7', 'sub h0 tb x 0 u8', 'srclen h0']
+    elif kind == 'tick_restart':
+        # a tick configured, the loop stopped and started again (the tick source must leave and re-enter the poll set), torn down
+        L += ['reg h0 A - -', 'start h0', 'sub h0 LIBMODULE_CTX_TICK - 0 u1', 'tick %d' % r.choice([1, 1, 10 ** 12]), 'dispatch', 'dispatch',
+              'quit %d' % r.randrange(1, 200), 'dispatch', 'dispatch', 'dispatch', r.choice(['tick 1', 'tick 0', 'srclen h0']), 'dispatch',
+              'quit 0', 'dispatch', 'dispatch', 'dispatch']
     elif kind == 'tb_reconf':
         # a bucket is configured, drained, reconfigured (rates that share low bits), stopped, restarted
         L += ['reg h0 A - -', 'tb h0 %d %d' % (r.choice([1, 65536, 131072, 10 ** 9]), r.randrange(1, 4)), 'start h0']
